@@ -26,6 +26,14 @@ fn build(args: BuildArgs) -> anyhow::Result<Option<usize>> {
         dumb_console = DumbConsoleProgress::new(args.verbose);
         &dumb_console
     };
+    #[cfg(n2_verif)]
+    let verif_progress = crate::verif::VerifProgress;
+    #[cfg(n2_verif)]
+    let progress: &dyn Progress = if crate::verif::active() {
+        &verif_progress
+    } else {
+        progress
+    };
 
     let build_filename = args.build_filename.as_deref().unwrap_or("build.ninja");
     let mut state = trace::scope("load::read", || load::read(build_filename))?;
@@ -161,6 +169,11 @@ fn parse_args() -> anyhow::Result<Result<BuildArgs, i32>> {
 
     use lexopt::prelude::*;
     let mut parser = lexopt::Parser::from_env();
+    #[cfg(n2_verif)]
+    let mut parser = match crate::verif::take_argv() {
+        Some(argv) => lexopt::Parser::from_args(argv),
+        None => parser,
+    };
     while let Some(arg) = parser.next()? {
         match arg {
             Short('h') | Long("help") => {
